@@ -125,7 +125,16 @@ func (c *foldChecker) expect(v any) string {
 		if e.regOp != x.Op {
 			c.bad = true
 		}
-		c.ok = rtAnd(c.ok, rtAnd(rtOr(e.left == l, e.left == "("+l+")"), rtOr(e.right == r, e.right == "("+r+")")))
+		// the text handed over for a list (items joined) or a range boundary (both bounds in one
+		// string) is an internal protocol the property does not fix: those arguments are not compared
+		_, leftIsList := x.Left.([]*expr.Expression)
+		_, rightIsBoundary := x.Right.(*expr.RangeBoundary)
+		if !leftIsList {
+			c.ok = rtAnd(c.ok, rtOr(e.left == l, e.left == "("+l+")"))
+		}
+		if !rightIsBoundary {
+			c.ok = rtAnd(c.ok, rtOr(e.right == r, e.right == "("+r+")"))
+		}
 		return e.ret
 	case []*expr.Expression:
 		s := ""
